@@ -383,6 +383,14 @@ def work(payload, skip, report):
             for o, ob, ex in res:
                 acc.violation(o, {"first": first, "input": second, "kind": "same_page"}, ob, ex)
         acc.sample({"first": UNFINISHED[0], "input": SECOND_DOCS[0]})
+        for (esc, live, k), order in itertools.product(TWINS, (0, 1, 2)):
+            report(i)
+            i += 1
+            doc, res = check_twins(ctx, esc, live, k, order)
+            acc.case()
+            acc.distinct("inputs", doc)
+            for o, ob, ex in res:
+                acc.violation(o, {"input": doc, "kind": "twins", "spec": [esc, live, k, order]}, ob, ex)
     elif kind == "nested":
         for outer, inner, am, content, src in nested_cases(ctx):
             if hash_mod(outer) % payload[2] != payload[1]:
@@ -422,6 +430,44 @@ SECOND_DOCS = ['{| class="c"\n|+ cap\n|-\n! h1 !! h2\n|-\n| style="s" | a || b\n
                "<div>a<ul><li>b</li></ul></div>\n{|\n|x\n|}\n"]
 
 
+# a construct written as text (its brackets split by <nowiki/>) and the same construct live, with identical arguments
+TWINS = [("{<nowiki/>{t|a|k=v}}", "{{t|a|k=v}}", "TEMPLATE"), ("{{t|a|k=v}<nowiki/>}", "{{t|a|k=v}}", "TEMPLATE"),
+         ("[<nowiki/>[l|text]]", "[[l|text]]", "LINK"), ("{<nowiki/>{#if:x|y}}", "{{#if:x|y}}", "PARSER_FN"),
+         ("{<nowiki/>{{p|c}}}", "{{{p|c}}}", "TEMPLATE_ARG")]      # (no bracketed-URL twin: the bare URL inside the split brackets is a link of its own)
+UNFINISHED += [t[0] for t in TWINS] + [t[1] for t in TWINS]
+SECOND_DOCS += [" and ".join(t[0] for t in TWINS), " and ".join(t[1] for t in TWINS)]
+
+
+def count_kind(node, kind):
+    from wikitextprocessor import WikiNode
+    n = 0
+    stack = [node]
+    while stack:
+        x = stack.pop()
+        if isinstance(x, WikiNode):
+            if x.kind.name == kind:
+                n += 1
+            stack.extend(x.children)
+            for a in (getattr(x, "largs", None) or []):
+                stack.extend(a)
+        elif isinstance(x, (list, tuple)):
+            stack.extend(x)
+    return n
+
+
+def check_twins(ctx, esc, live, kind, order):
+    """The escaped and the live spelling in one document: exactly the live one is a node."""
+    doc = "Write %s to get %s" % ((esc, live) if order == 0 else (live, esc))
+    if order == 2:
+        doc = "{|\n| %s || %s\n|}" % (esc, live)
+    ctx.start_page("Tt")
+    try:
+        n = count_kind(ctx.parse(doc), kind)
+    except Exception as e:
+        return doc, [("twin_spellings_one_node", "EXC " + type(e).__name__ + ": " + str(e)[:80], 1)]
+    return doc, ([] if n == 1 else [("twin_spellings_one_node", {"kind": kind, "nodes": n}, 1)])
+
+
 def check_same_page(ctx, first, second):
     ctx.start_page("Tt")
     want = dump(ctx.parse(second))
@@ -437,6 +483,13 @@ def check_same_page(ctx, first, second):
 
 
 def replay(case):
+    if case.get("kind") == "twins":
+        ctx = new_ctx()
+        try:
+            _, res = check_twins(ctx, *case["spec"])
+        finally:
+            close_ctx(ctx)
+        return [{"oracle": o, "observed": ob, "expected": ex} for o, ob, ex in res]
     if case.get("kind") == "same_page":
         ctx = new_ctx()
         try:
